@@ -474,6 +474,10 @@ class HistoryGen:
                     if t.M:
                         break
                     cs = [self.gen_constraint(h)]
+            if r.chance(self.p.get("dup_in_list_pct", 6)):
+                # the same constraint twice in ONE call, followed by another one: whatever pairs up "given" and "actually
+                # added" constraints positionally goes wrong here
+                cs = [cs[0], cs[0]] + cs[1:] + [self.gen_constraint(h)]
             op.update(op="add", cs=cs)
             if len(cs) == 1 and r.chance(30):
                 op["as_list"] = False
@@ -529,6 +533,8 @@ class HistoryGen:
             self.unknown_handles = min(6, self.unknown_handles + 2)
         elif kind == "unsat_core":
             op.update(op="unsat_core")
+            if r.chance(25):
+                op["extra"] = [self.egf(h).constraint()]
         elif kind == "split_recombine":
             self.macro_split_recombine(hi, h)
             return
@@ -606,7 +612,10 @@ class HistoryGen:
             return None
         n = r.choice(free)
         w = self.vars[n]
-        return {"op": "add_replacement", "h": hi, "var": n, "value": r.below(1 << w)}
+        op = {"op": "add_replacement", "h": hi, "var": n, "value": r.below(1 << w)}
+        if r.chance(40):
+            op["invalidate_cache"] = False
+        return op
 
     def macro_split_recombine(self, hi, h):
         """C15: solve -> split() -> change one part so that its cached model dies, solve it again -> combine the parts
@@ -1075,6 +1084,8 @@ PROFILES = {
         "frontends": [("SolverReplacement", 5), ("SolverHybrid", 5)],
         "length": (3, 30),
         "hybrid_exact": [None, None, True],
+        "kw_for": {"SolverHybrid": [{}, {}, {"approximate_first": True}]},
+        "dup_in_list_pct": 12,
         "echo_pct": 20,
         "weights": {"pickle": 2, "downsize": 4, "branch": 6, "add_replacement": 3},
         "pickle_modes": ["replace"],
@@ -1130,7 +1141,7 @@ PROFILES = {
     "C14": {
         "frontends": ALL_EXACT,
         "length": (5, 40),
-        "weights": {"branch": 14, "downsize": 4, "simplify": 6, "pickle": 1, "span_branch_add": 4, "late_unsat": 3},
+        "weights": {"branch": 14, "downsize": 4, "simplify": 6, "pickle": 1, "span_branch_add": 4, "late_unsat": 3, "add_replacement": 2},
         "pickle_modes": ["replace"],
         "never_swarm_out": ("branch",),
         "sweep_pct": 70,
